@@ -91,7 +91,7 @@ func c03GenSched(tier string, emit func(c03Case)) {
 	for i := 0; i < len(kinds); i++ {
 		for j := i; j < len(kinds); j++ {
 			for si, sh := range shapes {
-				if tier == "quick" && (si+n)%7 != 0 {
+				if tier == "quick" && (si+n)%8 != 0 {
 					continue
 				}
 				if tier == "thorough" && (si+n)%3 != 0 {
